@@ -138,13 +138,54 @@ fn c11_suite<S: ShortGroupSignatureScheme>(em: &mut Emitter, base: &mut Rng, sui
         if k == 1 {
             mix = Mix { n_creds: 1, n_claims: 4, disclosed: vec![vec!["name".into()]], ved: Some(2), verenc: Some((3, false)), age: 21, ..Default::default() };
         }
-        let scn = Scn::<S>::build(rng, &mix);
+        // k == 2: an issuer key whose generator for a hidden claim is the point at infinity, the claim there being zero (the
+        // credential stays valid under the crafted key). Such a key must be refused; if a presentation under it is accepted,
+        // the sweep below finds the response that nothing binds.
+        let degenerate_key = k == 2;
+        if degenerate_key {
+            mix = Mix { n_creds: 1, n_claims: 4, disclosed: vec![vec!["name".into()]], zero_ssn: true, age: 50, ..Default::default() };
+        }
+        let mut scn = Scn::<S>::build(rng, &mix);
+        if degenerate_key {
+            let mut sv = serde_json::to_value(&scn.schema).unwrap();
+            let mut ls = vec![];
+            leaves(&sv, &mut vec![], &mut ls);
+            for (path, leaf) in &ls {
+                let n = path.len();
+                if n >= 2 && path[n - 1] == "3" && (path[n - 2] == "y" || path[n - 2] == "y_blinds") && path.iter().any(|x| x == "verifying_key") {
+                    let ident = match leaf.as_str().map(|x| x.len()) {
+                        Some(96) => json!(g1_hex_c(&G1Projective::IDENTITY)),
+                        Some(192) => json!(g2_hex_c(&G2Projective::IDENTITY)),
+                        _ => continue,
+                    };
+                    *get_mut(&mut sv, path).unwrap() = ident;
+                }
+            }
+            match schema_from_value::<S>(&sv) {
+                Out::Ok(s2) => scn.schema = s2,
+                _ => {
+                    em.count("degenerate-key:schema-undecodable");
+                    continue;
+                }
+            }
+        }
         let p = match scn.create() {
             Out::Ok(p) => p,
-            _ => continue,
+            _ => {
+                if degenerate_key {
+                    em.count("degenerate-key:create-refused");
+                }
+                continue;
+            }
         };
         if !scn.verify(&p).is_ok() {
+            if degenerate_key {
+                em.count("degenerate-key:refused");
+            }
             continue;
+        }
+        if degenerate_key {
+            em.count("degenerate-key:accepted");
         }
         let pv = serde_json::to_value(&p).unwrap();
         let canon = serde_json::to_string(&pv).unwrap();
